@@ -169,6 +169,7 @@ func checkC20(c *Ctx) {
 			return ""
 		})
 	c.requestContextIsClients()
+	c.noBufferingHandler()
 	c.constructorArgsFromConfig("NewWebSocketPool")
 	lockDiscipline(c, func(k string) bool {
 		return strings.HasPrefix(k, poolT) || strings.HasPrefix(k, "loadbalancer.WebSocketPool.")
